@@ -250,8 +250,8 @@ pub fn run_c01(outdir: &str, seed: u64, thorough: bool) -> serde_json::Value {
             let data = gen_dp_data(&mut r, &w.specs, 14, 4);
             // data may violate declared ranges and multiplicities: clipping must enforce the bound
             let mut data = if pinned { pinned_data() } else { data };
-            // one unit far above the declared multiplicity (several users rows with the same id, many orders and items)
-            if !pinned && r.chance(1, 3) { let k = r.range(2, 40) as usize;
+            // one unit far above the declared multiplicity (several users rows with the same id, many orders)
+            if !pinned && r.chance(1, 3) { let k = r.range(2, 12) as usize;
                 if let Some(u0) = data["users"].get(0).cloned() { for _ in 0..k { data.get_mut("users").unwrap().push(u0.clone()); }
                     let mine: Vec<Vec<SV>> = data["orders"].iter().filter(|o| o[1] == u0[0]).cloned().collect();
                     for (j, o) in mine.iter().cycle().take(if mine.is_empty() { 0 } else { k }).enumerate() { let mut o = o.clone(); if j % 2 == 0 { o[3] = SV::Text("new".into()); } data.get_mut("orders").unwrap().push(o); } } }
@@ -318,15 +318,16 @@ pub fn run_c01(outdir: &str, seed: u64, thorough: bool) -> serde_json::Value {
 fn gen_exact_query(r: &mut Rng) -> (String, String, Vec<String>, Vec<String>, Vec<String>) {
     // (from, numeric columns, keys, from clause exposing the unit, unit expression)
     let (from, nums, keys, ufrom, unit): (&str, Vec<&str>, Vec<&str>, &str, &str) = match r.below(5) {
-        0 => ("users AS t", vec!["t.age", "t.income", "t.score"], vec!["t.city"], "users AS t", "t.id"),
-        1 => ("orders AS t", vec!["t.amount"], vec!["t.status"], "orders AS t", "t.user_id"),
+        0 => ("users AS t", vec!["t.age", "t.income", "t.score"], vec!["t.city", "t.age"], "users AS t", "t.id"),
+        1 => ("orders AS t", vec!["t.amount"], vec!["t.status", "t.user_id"], "orders AS t", "t.user_id"),
         2 => ("items AS t", vec!["t.price", "t.qty"], vec!["t.qty"], "items AS t JOIN orders AS zz ON t.order_id = zz.id", "zz.user_id"),
         3 => ("orders AS t JOIN users AS u ON t.user_id = u.id", vec!["t.amount", "u.age", "u.income"], vec!["u.city", "t.status"], "orders AS t JOIN users AS u ON t.user_id = u.id", "t.user_id"),
-        _ => ("items AS t JOIN orders AS o ON t.order_id = o.id", vec!["t.price", "o.amount", "t.qty"], vec!["o.status"], "items AS t JOIN orders AS o ON t.order_id = o.id", "o.user_id"),
+        _ => ("items AS t JOIN orders AS o ON t.order_id = o.id", vec!["t.price", "o.amount", "t.qty"], vec!["o.status", "t.qty"], "items AS t JOIN orders AS o ON t.order_id = o.id", "o.user_id"),
     };
     let mut shared = vec![]; let mut rowsq: Vec<String> = vec![];
     let mut items = vec![]; let mut ritems = vec![]; let mut kinds: Vec<String> = vec![]; let mut group = vec![];
-    if r.chance(2, 3) { let k = *r.pick(&keys); items.push(format!("{} AS k0", k)); ritems.push(format!("{} AS k0", k)); group.push(k.to_string()); kinds.push("key".into()); shared.push(String::new()); rowsq.push(String::new()); }
+    if r.chance(2, 3) { let mut ks = keys.clone(); if r.chance(1, 2) { ks.reverse(); } if ks.len() > 1 && r.chance(1, 2) { ks.truncate(1); }
+        for (i, k) in ks.iter().enumerate() { items.push(format!("{} AS k{}", k, i)); ritems.push(format!("{} AS k{}", k, i)); group.push(k.to_string()); kinds.push("key".into()); shared.push(String::new()); rowsq.push(String::new()); } }
     let wh = if r.chance(1, 3) { format!(" WHERE {} > {}", r.pick(&nums), r.range(0, 20)) } else { String::new() };
     for i in 0..r.range(1, 4) {
         let c = *r.pick(&nums);
@@ -337,7 +338,7 @@ fn gen_exact_query(r: &mut Rng) -> (String, String, Vec<String>, Vec<String>, Ve
         ritems.push(match kind { "var" | "std" => format!("AVG(({e}) * ({e})) - AVG({e}) * AVG({e}) AS a{i}", e = e, i = i), _ => format!("{}({}{}) AS a{}", f, d, e, i) });
         kinds.push(if d.is_empty() { kind.to_string() } else { format!("{}-distinct", kind) });
         // the (unit, value) rows behind the aggregate, for the model
-        rowsq.push(format!("SELECT {}{} AS u, {} AS v FROM {}{}", group.iter().map(|g| format!("{} AS k0, ", g)).collect::<String>(), unit, e, ufrom, wh));
+        rowsq.push(format!("SELECT {}{} AS u, {} AS v FROM {}{}", group.iter().enumerate().map(|(i, g)| format!("{} AS k{}, ", g, i)).collect::<String>(), unit, e, ufrom, wh));
         // number of (group, value) pairs held by more than one unit: a DISTINCT aggregate is exact only without them
         shared.push(if d.is_empty() { String::new() } else { format!("SELECT COUNT(*) FROM (SELECT 1 FROM {}{} GROUP BY {}{} HAVING COUNT(DISTINCT {}) > 1)", ufrom, wh,
             group.iter().map(|g| format!("{}, ", g)).collect::<String>(), e, unit) });
@@ -384,8 +385,11 @@ pub fn run_c09(outdir: &str, seed: u64, thorough: bool) -> serde_json::Value {
             let (_, want) = match db.query(&refsql) { Ok(x) => x, Err(_) => { st.bump("reference_not_executable"); continue; } };
             let (_, got) = match db.query(&text) { Ok(x) => x, Err(e) => { st.bump("rewritten_not_executable_on_sqlite"); if st.notes.len() < 5 { st.notes.push(format!("{} :: {}", e, sql)); } continue; } };
             st.evaluations += 1; st.distinct.insert(hash_str(&format!("{}{:?}", sql, data)));
-            let keyed = kinds[0] == "key";
-            let key = |row: &Vec<SV>| if keyed { row[0].canon() } else { String::new() };
+            let nk = kinds.iter().filter(|k| *k == "key").count();
+            let keyed = nk > 0;
+            let key = |row: &Vec<SV>| row[..nk].iter().map(|x| x.canon()).collect::<Vec<_>>().join("|");
+            // the groups of the DP result are distinct
+            { let mut seen = BTreeSet::new(); for grow in got.iter() { if !seen.insert(key(grow)) { st.violation(json!({"kind":"group-returned-twice","query":sql,"group":key(grow)})); break; } } }
             let gotm: BTreeMap<String, &Vec<SV>> = got.iter().map(|row| (key(row), row)).collect();
             for row in want.iter() {
                 let Some(g) = gotm.get(&key(row)) else { st.violation(json!({"kind":"group-missing-from-dp-result","query":sql,"group":key(row)})); continue };
@@ -395,8 +399,8 @@ pub fn run_c09(outdir: &str, seed: u64, thorough: bool) -> serde_json::Value {
                     // the model on the rows behind this value
                     if let (Some(ret), Ok((_, urows))) = (g[ci].as_f64(), db.query(&rowsq[ci])) {
                         let mut uid: BTreeMap<String, i128> = BTreeMap::new();
-                        let mine: Vec<String> = urows.iter().filter(|x| !keyed || x[0].canon() == key(row)).map(|x| {
-                            let (u, v) = if keyed { (&x[1], &x[2]) } else { (&x[0], &x[1]) };
+                        let mine: Vec<String> = urows.iter().filter(|x| !keyed || key(x) == key(row)).map(|x| {
+                            let (u, v) = (&x[nk], &x[nk + 1]);
                             let nu = uid.len() as i128; let u = *uid.entry(u.canon()).or_insert(nu);
                             format!("({}, {})", coq_z(u), match v.as_f64() { Some(f) => format!("Some {}", fq(f)), None => "None".into() }) }).collect();
                         if cases.len() < cap_cases && mine.len() <= 40 { let (base, d) = match kind.strip_suffix("-distinct") { Some(b) => (b, true), None => (kind, false) };
